@@ -117,7 +117,7 @@ def run_create(ctx, rep):
         check_create(rep, case)
         rep.eval(bool(case["sequences"]) and len(case["sequences"][0]) > 0)
         if i % 997 == 5:
-            rep.sample(case, per_space=2)
+            rep.sample(case, per_space=1)
 
 
 def replay_create(ctx, rep, case):
@@ -206,7 +206,7 @@ def run_countmatrix(ctx, rep):
         check_countmatrix(rep, case)
         rep.eval(any(len(v) for v in case["values"].values()))
         if i % 101 == 3:
-            rep.sample(case, per_space=2)
+            rep.sample(case, per_space=1)
 
 
 def replay_countmatrix(ctx, rep, case):
@@ -225,10 +225,14 @@ def _dict_of_rows(rows, protein):
     return {s: [r[j] for r in rows] for j, s in enumerate(abc)}
 
 
-def nl_matrices():
+def nl_matrices(thorough=False):
     out = []
     for r in DNA_ROWS:
         out.append((False, [r]))
+    if thorough:
+        for r1 in DNA_ROWS:
+            for r2 in DNA_ROWS:
+                out.append((False, [r1, r2]))
     out += [(False, [DNA_ROWS[2], DNA_ROWS[3]]), (False, [DNA_ROWS[0], DNA_ROWS[4]]), (False, [DNA_ROWS[5], DNA_ROWS[1]]), (False, list(DNA_ROWS))]
     out.append((True, [rm.lcg_ranks(21, 9, 5), rm.lcg_ranks(21, 4, 6)]))
     out.append((True, [[0] * 9 + [3] + [0] * 11]))
@@ -258,7 +262,7 @@ BASES = [2.0, 10.0, math.e]
 
 
 def normalize_logodds_cases(ctx):
-    for protein, rows in nl_matrices():
+    for protein, rows in nl_matrices(not ctx.quick()):
         for p in nl_pseudocounts(protein):
             for bg in nl_backgrounds(protein):
                 for base in BASES:
@@ -321,7 +325,7 @@ def check_normalize_logodds(rep, case):
 
 
 def run_normalize_logodds(ctx, rep):
-    rep.space("normalize_logodds", "CountMatrix(...).normalize(pseudocount).log_odds(background, base): 11 DNA + 2 protein count matrices (skewed, equal, "
+    rep.space("normalize_logodds", "CountMatrix(...).normalize(pseudocount).log_odds(background, base): 11 DNA (thorough: + all 49 two-row matrices of the row menu) + 2 protein count matrices (skewed, equal, "
               "zero cells, wildcard counts, wildcard-only row, 1e6-scale, all-zero row) x pseudocount in {None, 0, 0.1, 1, dict menus} x background in "
               "{None, uniform dict, dyadic / decimal non-uniform, zero entry, non-zero wildcard} x base in {2, 10, e}: weights = (count+pseudo)/total/uniform b "
               "and scores = log_base(f/b), -inf where b == 0, in Python floats with a derived few-ulp f32 tolerance; rows with total 0 are undefined and skipped; "
@@ -331,7 +335,7 @@ def run_normalize_logodds(ctx, rep):
             continue
         rep.eval(check_normalize_logodds(rep, case))
         if i % 211 == 7:
-            rep.sample(case, per_space=2)
+            rep.sample(case, per_space=1)
 
 
 def replay_normalize_logodds(ctx, rep, case):
@@ -469,7 +473,7 @@ def run_scoringmatrix(ctx, rep):
         check_scoringmatrix(rep, case)
         rep.eval(case["expect"] == "ok")
         if i % 53 == 2:
-            rep.sample(case, per_space=2)
+            rep.sample(case, per_space=1)
 
 
 def _unsan_values(case):
@@ -571,7 +575,7 @@ def run_pvalue(ctx, rep):
         n = check_pvalue(rep, case)
         rep.eval(True, n)
         if i % 37 == 1:
-            rep.sample(case, per_space=2)
+            rep.sample(case, per_space=1)
 
 
 def replay_pvalue(ctx, rep, case):
@@ -682,7 +686,7 @@ def run_revcomp(ctx, rep):
             continue
         rep.eval(check_revcomp(rep, case))
         if i % 131 == 4:
-            rep.sample(case, per_space=2)
+            rep.sample(case, per_space=1)
 
 
 def replay_revcomp(ctx, rep, case):
